@@ -563,22 +563,27 @@ pub fn drive_c08(a: &Args) {
     }
     digit_seqs.push(vec![48, 48, 48, 48, 52, 49]);
     digit_seqs.push(vec![48, 49, 70, 54, 48, 48]);
-    for ds in digit_seqs {
+    for (di, ds) in digit_seqs.into_iter().enumerate() {
         for open in [false, true] {
             for close in [false, true] {
                 let (pre, post) = if a.thorough() { (rng.pick(&ctx).clone(), rng.pick(&ctx).clone()) } else { (vec![], rng.pick(&ctx).clone()) };
-                let mut t = pre;
-                // every fourth attempt is spelled with a capital U: never an escape
-                t.extend([92, if (ds.len() + t.len() + open as usize) % 4 == 3 { 85 } else { 117 }]);
-                if open {
-                    t.push(123);
+                // every attempt with the escape letter u; every fourth one ALSO with a capital U (never an escape)
+                for letter in [117u32, 85] {
+                    if letter == 85 && di % 4 != 0 {
+                        continue;
+                    }
+                    let mut t = pre.clone();
+                    t.extend([92, letter]);
+                    if open {
+                        t.push(123);
+                    }
+                    t.extend(ds.iter());
+                    if close {
+                        t.push(125);
+                    }
+                    t.extend(post.iter());
+                    out.emit(parse_event(&t));
                 }
-                t.extend(ds.iter());
-                if close {
-                    t.push(125);
-                }
-                t.extend(post);
-                out.emit(parse_event(&t));
             }
         }
     }
